@@ -1,4 +1,4 @@
-import GixModel.Model.C47
+import GixModel.Model.C47Walks
 import GixModel.Spec.C47
 /-
 C47 — lemmas, part 1: the `Simple` iterator.
